@@ -3,6 +3,7 @@ import BU.Gen.Codec
 import BU.Gen.Tables
 import BU.Spec.Timelock
 import BU.Spec.Script
+import BU.Proofs.PyLemmas
 /-!
 # C18 — timelock helpers encode BIP68/BIP112/BIP65 consistently in inputs and scripts
 
@@ -12,25 +13,72 @@ All T: `Gen.sequence_init`, `Gen.sequence_for_input`, `Gen.sequence_for_script`,
 namespace C18
 open Py Spec
 
+/-! ## helper lemmas -/
+
+theorem lor_flag (v : Nat) (h : v < 2 ^ 22) : lor 4194304 (v : Int) = ((v + 4194304 : Nat) : Int) := by
+  have eor : 2 ^ 22 ||| v = v + 2 ^ 22 := two_pow_or_of_lt h
+  show lor ((4194304 : Nat) : Int) (v : Int) = _
+  rw [lor_natCast]
+  simp only [Nat.reducePow] at eor
+  rw [eor]
+
+theorem lor_flag' (v : Nat) (h : v < 2 ^ 22) : lor (v : Int) 4194304 = ((v + 4194304 : Nat) : Int) := by
+  have eor : 2 ^ 22 ||| v = v + 2 ^ 22 := two_pow_or_of_lt h
+  show lor (v : Int) ((4194304 : Nat) : Int) = _
+  rw [lor_natCast, Nat.or_comm]
+  simp only [Nat.reducePow] at eor
+  rw [eor]
+
+theorem lor_zero_flag : lor 0 4194304 = 4194304 := by decide
+
 /-- a relative timelock in range is accepted and produces the BIP68 value, identically as the
 4-byte little-endian input sequence and as the number for the script -/
 theorem relative_ok (v : Nat) (h1 : 1 ≤ v) (h2 : v ≤ 65535) (blocks : Bool) :
     Gen.sequence_init Gen.TYPE_RELATIVE_TIMELOCK v blocks = .ok () ∧
     Gen.sequence_for_input Gen.TYPE_RELATIVE_TIMELOCK v blocks = .ok (some (leBytes 4 (relativeSequence v blocks))) ∧
     Gen.sequence_for_script Gen.TYPE_RELATIVE_TIMELOCK v blocks = .ok (relativeSequence v blocks : Nat) := by
-  sorry
+  have a1 : ¬ ((v:Int) < 1) := by omega
+  have a2 : ¬ ((v:Int) > 65535) := by omega
+  have e22 : shl 1 22 = .ok (((2 ^ 22 : Nat)) : Int) := shl_one_natCast 22
+  refine ⟨?_, ?_, ?_⟩
+  · simp [Gen.sequence_init, Gen.TYPE_RELATIVE_TIMELOCK, a1, a2]
+    rfl
+  · cases blocks
+    · have tb := toBytes_little_of_nonneg ((v:Int) + 4194304) 4 (by omega) (by omega) (by simp; omega)
+      have e : ((v:Int) + 4194304).toNat = v + 4194304 := by omega
+      simp [Gen.sequence_for_input, Gen.TYPE_RELATIVE_TIMELOCK, e22, ok_bind, lor_zero_flag,
+        lor_flag v (by omega), tb, e, relativeSequence, SEQUENCE_LOCKTIME_TYPE_FLAG, map_ok]
+    · have tb := toBytes_little_natCast v 4 (by omega)
+      simp only [Int.cast_ofNat_Int] at tb
+      simp [Gen.sequence_for_input, Gen.TYPE_RELATIVE_TIMELOCK, lor_zero_left,
+        tb, relativeSequence, map_ok]
+  · cases blocks
+    · simp [Gen.sequence_for_script, Gen.TYPE_RELATIVE_TIMELOCK, e22, ok_bind,
+        lor_flag' v (by omega), relativeSequence, SEQUENCE_LOCKTIME_TYPE_FLAG, pure_eq_ok]
+    · simp [Gen.sequence_for_script, Gen.TYPE_RELATIVE_TIMELOCK, relativeSequence, pure_eq_ok]
 
 /-- the value sits in the low 16 bits, bit 22 is set exactly for 512-second units, bit 31 is clear -/
 theorem relative_bits (v : Nat) (h1 : 1 ≤ v) (h2 : v ≤ 65535) (blocks : Bool) :
     relativeSequence v blocks % 2 ^ 16 = v ∧
     (relativeSequence v blocks / 2 ^ 22 % 2 = if blocks then 0 else 1) ∧
     relativeSequence v blocks / 2 ^ 31 % 2 = 0 ∧ relativeSequence v blocks < 2 ^ 32 := by
-  sorry
+  cases blocks <;> simp [relativeSequence, SEQUENCE_LOCKTIME_TYPE_FLAG] <;> omega
 
 /-- values outside 1..65535 are rejected -/
 theorem relative_rejects (v : Int) (h : v < 1 ∨ 65535 < v) (blocks : Bool) :
     ∃ e, Gen.sequence_init Gen.TYPE_RELATIVE_TIMELOCK v blocks = .error e := by
-  sorry
+  refine ⟨.valueError, ?_⟩
+  simp [Gen.sequence_init, Gen.TYPE_RELATIVE_TIMELOCK, h, throw_eq_error]
+
+/-- BIP112 accepts any non-negative stack value against an input carrying the same value (version ≥ 2) -/
+theorem csv_self (r : Nat) : checkSequenceVerify 2 r (r : Int) = true := by
+  have a : ¬ ((r : Int) < 0) := by omega
+  simp only [checkSequenceVerify, a, if_false, Int.toNat_natCast]
+  split
+  · rfl
+  · simp only [if_false, Nat.lt_irrefl]
+    cases hc : decide ((r &&& (SEQUENCE_LOCKTIME_TYPE_FLAG ||| SEQUENCE_LOCKTIME_MASK)) < SEQUENCE_LOCKTIME_TYPE_FLAG)
+      <;> simp_all
 
 /-- a CHECKSEQUENCEVERIFY script and an input built from the same helper satisfy each other
 under BIP112 in a version-2 transaction -/
@@ -38,7 +86,16 @@ theorem bip112_satisfied (v : Nat) (h1 : 1 ≤ v) (h2 : v ≤ 65535) (blocks : B
     (hs : Gen.sequence_for_input Gen.TYPE_RELATIVE_TIMELOCK v blocks = .ok (some seq))
     (hn : Gen.sequence_for_script Gen.TYPE_RELATIVE_TIMELOCK v blocks = .ok n) :
     checkSequenceVerify 2 (ofLE seq) n = true := by
-  sorry
+  obtain ⟨_, e1, e2⟩ := relative_ok v h1 h2 blocks
+  rw [e1] at hs
+  rw [e2] at hn
+  injection hs with hs
+  injection hs with hs
+  injection hn with hn
+  subst hs hn
+  have hb := (relative_bits v h1 h2 blocks).2.2.2
+  rw [ofLE_leBytes 4 _ (by omega)]
+  exact csv_self _
 
 /-- the absolute-timelock and replace-by-fee sequences are non-final, so locktime is enforced -/
 theorem nonfinal_sequences :
@@ -46,23 +103,105 @@ theorem nonfinal_sequences :
     Gen.sequence_for_input Gen.TYPE_REPLACE_BY_FEE 0 true = .ok (some Gen.REPLACE_BY_FEE_SEQUENCE) ∧
     Gen.ABSOLUTE_TIMELOCK_SEQUENCE.length = 4 ∧ Gen.REPLACE_BY_FEE_SEQUENCE.length = 4 ∧
     nonFinal (ofLE Gen.ABSOLUTE_TIMELOCK_SEQUENCE) = true ∧ nonFinal (ofLE Gen.REPLACE_BY_FEE_SEQUENCE) = true := by
-  sorry
+  refine ⟨rfl, rfl, rfl, rfl, by decide, by decide⟩
 
 /-- the locktime helper emits the 32-bit little-endian value -/
 theorem locktime_le32 (v : Nat) (h : v < 2 ^ 32) : Gen.locktime_for_transaction v = .ok (leBytes 4 v) := by
-  sorry
+  have tb := toBytes_little_natCast v 4 (by omega)
+  simp only [Int.cast_ofNat_Int] at tb
+  simp [Gen.locktime_for_transaction, tb, ok_bind, pure_eq_ok]
 
 theorem locktime_rejects (v : Int) (h : v < 0 ∨ 2 ^ 32 ≤ v) : ∃ e, Gen.locktime_for_transaction v = .error e := by
-  sorry
+  refine ⟨.overflowError, ?_⟩
+  unfold Gen.locktime_for_transaction
+  rcases h with h | h
+  · rw [toBytes_error_of_neg _ _ _ h]; rfl
+  · rw [toBytes_error_of_ge _ _ _ (by simp; omega)]; rfl
+
+theorem byteLen_pos {k : Nat} (hk : 0 < k) : 0 < byteLen k := by
+  have := natBits_pos hk
+  unfold byteLen; omega
 
 /-- numbers pushed into scripts are the script-number encoding of the number … -/
-theorem push_integer_scriptnum (k : Nat) :
+theorem push_integer_scriptnum (k : Nat) (hk : 0 < k) :
     Gen.push_integer k = Gen.op_push_data (scriptNum k) := by
-  sorry
+  have hb := byteLen_pos hk
+  have a : ¬ ((k : Int) < 0) := by omega
+  have enb : (bitLength (k : Int) + 7) / 8 = ((byteLen k : Nat) : Int) := by
+    rw [bitLength_natCast]; unfold byteLen; omega
+  have tb : toBytes (k : Int) (byteLen k : Int) .little = .ok (leBytes (byteLen k) k) :=
+    toBytes_little_natCast k (byteLen k) (lt_pow_byteLen k)
+  have esh : ((byteLen k : Nat) : Int) * 8 - 1 = ((8 * byteLen k - 1 : Nat) : Int) := by omega
+  have hk0 : k ≠ 0 := by omega
+  unfold Gen.push_integer
+  simp only [enb, tb, esh, shl_one_natCast, ok_bind, land_natCast]
+  unfold scriptNum
+  simp only [hk0, if_false]
+  by_cases hbit : k / 2 ^ (8 * byteLen k - 1) % 2 = 1
+  · have := (and_two_pow_ne_zero_iff k (8 * byteLen k - 1)).2 hbit
+    simp [a, hbit, this]
+  · have : k &&& 2 ^ (8 * byteLen k - 1) = 0 := by
+      apply Decidable.byContradiction
+      intro hne
+      exact hbit ((and_two_pow_ne_zero_iff _ _).1 hne)
+    simp [a, hbit, this]
+
+/-- `_push_integer(0)` raises (`1 << -1`); `Script.to_bytes` never calls it for 0..16 -/
+theorem push_integer_zero : ∃ e, Gen.push_integer 0 = .error e := by
+  refine ⟨.valueError, ?_⟩
+  have e : shl 1 (-1) = .error .valueError := shl_of_neg 1 (-1) (by omega)
+  have tb : toBytes 0 0 .little = .ok [] := by
+    have := toBytes_little_natCast 0 0 (by omega)
+    simpa [leBytes] using this
+  have nb : (bitLength 0 + 7) / 8 = 0 := by simp [bitLength, natBits]
+  unfold Gen.push_integer
+  simp [nb, tb, e, ok_bind, error_bind]
 
 /-- … which decodes back to the number and is minimally encoded (every `k`, not only 0..2^40) -/
 theorem scriptnum_roundtrip (k : Nat) :
     scriptNumDecode (scriptNum k) = k ∧ scriptNumMinimal (scriptNum k) = true := by
-  sorry
+  by_cases hk0 : k = 0
+  · subst hk0; simp [scriptNum, scriptNumDecode, scriptNumMinimal]
+  have hk : 0 < k := by omega
+  have hb := byteLen_pos hk
+  obtain ⟨m, hm⟩ : ∃ m, byteLen k = m + 1 := ⟨byteLen k - 1, by omega⟩
+  have hlt : k < 256 ^ (m + 1) := hm ▸ lt_pow_byteLen k
+  have hge : 256 ^ m ≤ k := by
+    have := pow_byteLen_le k hk
+    unfold byteLen at hm
+    rw [hm] at this
+    simpa using this
+  have hof : ofLE (leBytes (m + 1) k) = k := ofLE_leBytes _ _ hlt
+  have hlast := getLast?_leBytes_succ m k
+  -- the last byte
+  have hpos : 0 < 256 ^ m := Nat.pow_pos (by omega)
+  have hL1 : 1 ≤ k / 256 ^ m := (Nat.le_div_iff_mul_le hpos).2 (by omega)
+  have hL2 : k / 256 ^ m < 256 := by
+    rw [Nat.div_lt_iff_lt_mul hpos]; rw [Nat.pow_succ] at hlt; omega
+  have hLmod : k / 256 ^ m % 256 = k / 256 ^ m := Nat.mod_eq_of_lt hL2
+  have hLnat : (UInt8.ofNat (k / 256 ^ m % 256)).toNat = k / 256 ^ m := by
+    simp [UInt8.toNat_ofNat']; omega
+  have hpow : 2 ^ (8 * (m + 1) - 1) = 256 ^ m * 128 := by
+    have : 8 * (m + 1) - 1 = 8 * m + 7 := by omega
+    rw [this, Nat.pow_add, pow_256_eq]
+  have hdiv : k / 2 ^ (8 * (m + 1) - 1) = k / 256 ^ m / 128 := by
+    rw [hpow, Nat.div_div_eq_div_mul]
+  unfold scriptNum
+  simp only [hk0, if_false, hm, hdiv]
+  by_cases hbit : k / 256 ^ m / 128 % 2 = 1
+  · have hL128 : ¬ (k / 256 ^ m < 128) := by omega
+    rw [if_pos hbit]
+    constructor
+    · simp [scriptNumDecode, ofLE_append_zero, hof]
+    · simp [scriptNumMinimal, hlast, hLnat]
+      omega
+  · have hL128 : k / 256 ^ m < 128 := by omega
+    have hmod : k / 256 ^ m % 128 ≠ 0 := by omega
+    rw [if_neg hbit]
+    constructor
+    · simp only [scriptNumDecode, hlast, hLnat, hof]
+      have : ¬ (k / 256 ^ m ≥ 128) := by omega
+      simp only [this, if_false]
+    · simp only [scriptNumMinimal, hlast, hLnat, hmod, if_false]
 
 end C18
